@@ -129,8 +129,9 @@ def run(tier):
     ]
     V.build_harness("c13")
     nh, steps = (8, 50) if tier == "quick" else (36, 100)
+    # 8 = tiny epochs under REAL difficulty adjustment (a reorganisation across an epoch boundary derives another next epoch);
     # 4 = tiny epochs: uncle candidates meet the next epoch's templates; 5 / 6 / 7 = tight cycle / byte / byte-by-proposals limits with a backlog
-    profiles = [4, 5, 0, 2, 3, 6, 7, 0] if tier == "quick" else [4, 5, 0, 6, 2, 7, 3]
+    profiles = [4, 5, 0, 2, 3, 6, 7, 8] if tier == "quick" else [4, 5, 0, 6, 2, 7, 3, 8]
     with cf.ThreadPoolExecutor(max_workers=1) as bg:
         fut = bg.submit(phase_mc, c, tier)
         seeds = [(V.seed() * 1000 + i, steps, profiles[i % len(profiles)], i) for i in range(nh)]
@@ -180,6 +181,7 @@ def run(tier):
             tot["reorgs"] += d["summary"]["reorgs"]
         fut.result()
     c.add("traces_validated_against_impl", tot["templates"])
+    tot["boundary_templates_under_adjustment"] = sum(d["summary"].get("boundary_templates", 0) for d in docs if d["summary"].get("profile") == 8)
     tot["dep_group_families_in_histories"] = sum(d["summary"].get("dep_groups", [0, 0, 0, 0])[2] for d in docs)
     tot["templates_while_a_dep_group_family_is_pooled"] = sum(1 for d in docs for e in d["events"] if e["ev"] == "Template" and e["moment"] == "dep-group-family")
     c.set("templates", tot)
@@ -195,6 +197,8 @@ def run(tier):
     # named vacuity case: "template with uncle candidates right after an epoch boundary"
     if tot["with_uncle_candidates_right_after_epoch_boundary"] < 3:
         raise V.ToolError("vacuous: no template was taken with uncle candidates of the previous epoch alive: %s" % tot)
+    if tot["boundary_templates_under_adjustment"] < 3:
+        raise V.ToolError("vacuous: no template was taken around an epoch boundary under real difficulty adjustment: %s" % tot)
     # named vacuity case: "template filled up to a consensus limit while the pool holds more"
     if tot["at_cycle_limit"] < 2 or tot["at_proposal_limit"] < 2 or tot["at_byte_limit"] < 1:
         raise V.ToolError("vacuous: no template was taken at the cycle / proposal / byte limit: %s" % tot)
